@@ -4,6 +4,13 @@ seeded/*/meta.json and seeded/RESULTS.md."""
 import json, glob, os, re
 
 NOTES = {
+ "C02-17": "missed at first: the data argument of the public transfer was always null; byte string, integer and array added under every signer set",
+ "C02-18": "missed by C02 at first (C01 had the call): payments into a live lock account and into the address the next lock will use",
+ "C06-17": "missed at first (needs an empty candidate set on a ring slot that holds an older map: 13 steps with ten maps): fourth exploration netmap-tick-short-history on a Netmap that keeps two maps",
+ "C09-18": "missed at first (needs more than 32 locks due at one tick): second exploration balance-locks-many, 40 locks made by one transaction",
+ "C12-17": "missed at first: a record two labels below the name being registered (three below its token)",
+ "C14-17": "missed at first: commitContainerListUpdate with Null instead of an empty array while keys are pending",
+ "C19-18": "missed by C19 at first (C17's statement covers it): vote-collected ledger on three stored keys (2/3+1 = 3, two thirds rounded = 2)",
  "C20-16": "missed at first: an outsider's audit result witnessed by its author and by an Inner Ring member",
  "C02-15": "missed at first: balance.newEpoch forwarded by a contract anybody can deploy (the probe), signed by a stranger, the holder, the Alphabet",
  "C03-15": "missed at first: row 'nns.transfer to the current owner itself'",
